@@ -71,6 +71,41 @@ Theorem C08_contiguity_assert_unreachable :
                 (st = SNoTable \/ st = SCatalogue \/ st = SColsNotInit)).
 Proof. intros c ops s H. apply recover_outcome. eapply reachable_inv; eauto. Qed.
 
+(* The recorded range and the frozen buffers belong to one critical section.  [flush] records the
+   range [earliest, next_wal) at the state whose buffers it freezes (wal_flush reads
+   storage.unflushed_wal_ids() while it holds the ingestion lock); all the theorems above are about
+   that flush.  [flush_stale] takes the end of the range from outside: at next_wal it is the flush,
+   ... *)
+Theorem C08_flush_is_flush_at_next_wal :
+  forall (g : bool) (c : cfg) (o : oracle) (s : db), flush_stale g c o s (next_wal s) = flush g c o s.
+Proof. reflexivity. Qed.
+
+(* ... and with the end read before an ingestion that the freeze then covers (two clients and a
+   flush: the range is read, client A ingests, the buffers are frozen) the rows of A are in the new
+   partition and in a segment above the new cursor: a restart serves them twice. *)
+Definition st_cfg : cfg :=
+  {| c_factor := 4; c_max_wal_files := 1000; c_max_wal_bytes := 67108864 |}.
+Definition st_t : name := [116].
+Definition st_id : name := [105; 100].
+Definition st_batch (k : Z) : batch :=
+  [{| tb_name := st_t; tb_cols := [st_id]; tb_rows := [[(st_id, CInt k)]] |}].
+Definition st_orc : oracle := [(st_t, (5, 5)); (s_meta_tables, (22, 22)); (meta_columns_of st_t, (5, 5))].
+
+Theorem C08_stale_range_duplicates :
+  exists s1 s2 s3 s4,
+    ingest st_cfg (st_batch 0) 200 (init st_cfg) = Val s1 /\
+    ingest st_cfg (st_batch 1) 100 s1 = Val s2 /\
+    flush_stale true st_cfg st_orc s2 (next_wal s1) = Val s3 /\
+    recover st_cfg s3 = Val s4 /\
+    map (fun r => get r st_id) (acked_rows (acked s2) st_t) = [CInt 0; CInt 1] /\
+    map (fun r => get r st_id) (content s4 st_t) = [CInt 0; CInt 1; CInt 1].
+Proof.
+  eexists. eexists. eexists. eexists.
+  split; [vm_compute; reflexivity|]. split; [vm_compute; reflexivity|].
+  split; [vm_compute; reflexivity|]. split; [vm_compute; reflexivity|].
+  split; vm_compute; reflexivity.
+Qed.
+
 (* non-vacuity: three tables, a flush between two restarts, compaction at every flush (factor 0
    with the sizes given by the oracle), a background flush enabled by max_wal_files = 1 *)
 Definition ex_cfg : cfg :=
